@@ -1504,7 +1504,7 @@ fn main() {
             eprintln!("final {}", l);
         }
         if let Some(f) = &o.found {
-            eprintln!("VIOLATION {}: {}", f.signature, f.detail);
+            eprintln!("VIOLATION at event {}: {}: {}", f.step, f.signature, f.detail);
         }
         report_outcome(&args, &mut total, "replay", cfg, &emb, rp["case_seed"].as_u64(), o);
     } else {
